@@ -164,11 +164,11 @@ func cachePut(query, tier string, r *SolverResult) {
 // ---------------- check ----------------
 
 type Failure struct {
-	O        *Obligation
-	Kind     string // sat | undecided | orphaned
-	Replay   string
+	O         *Obligation
+	Kind      string // sat | undecided | orphaned
+	Replay    string
 	Confirmed bool
-	Note     string
+	Note      string
 }
 
 func loadKnown() []KnownFinding {
@@ -559,7 +559,77 @@ func knownObls(failures []*Failure, knownHit []string, prop string) int {
 	return n
 }
 
-func cmdSelftest(args []string) int { return 2 }
+// cmdSelftest runs the whole must-fail / must-pass corpus (in memory) and reports what each mutant trips.
+func cmdSelftest(args []string) int {
+	pat := ".*"
+	if len(args) > 0 {
+		pat = args[0]
+	}
+	re := regexp.MustCompile(pat)
+	files, _ := filepath.Glob(filepath.Join(verifDir, "mutants", "*.patch"))
+	sort.Strings(files)
+	bad := 0
+	for _, p := range files {
+		name := strings.TrimSuffix(filepath.Base(p), ".patch")
+		if !re.MatchString(name) {
+			continue
+		}
+		var m *Mutant
+		b, _ := os.ReadFile(p)
+		props := ""
+		for _, ln := range strings.Split(string(b), "\n") {
+			if strings.HasPrefix(ln, "# property:") {
+				props = strings.TrimSpace(strings.TrimPrefix(ln, "# property:"))
+			}
+		}
+		for _, prop := range strings.Fields(strings.ReplaceAll(props, ",", " ")) {
+			for _, x := range listMutants(prop) {
+				if x.Name == name {
+					m = x
+				}
+			}
+			if m == nil {
+				continue
+			}
+			ov, err := overlayFor(m)
+			if err != nil {
+				fmt.Printf("%-45s %-4s SKIP (does not apply): %v\n", name, prop, err)
+				continue
+			}
+			ids, _ := failingIDs(ov, prop, "quick")
+			hit := false
+			var ex *regexp.Regexp
+			if m.Expect != "" {
+				ex, _ = regexp.Compile(m.Expect)
+			}
+			for _, id := range ids {
+				if ex == nil || ex.MatchString(id) {
+					hit = true
+				}
+			}
+			status := "detected"
+			if m.Kind == "must-pass" {
+				status = "verifies"
+				if len(ids) > 0 {
+					status = "CONTROL-FAILS"
+					bad++
+				}
+			} else if !hit {
+				status = "NOT-DETECTED"
+				bad++
+			}
+			show := ids
+			if len(show) > 3 {
+				show = append(show[:3:3], fmt.Sprintf("... %d more", len(ids)-3))
+			}
+			fmt.Printf("%-45s %-4s %-14s %v\n", name, prop, status, show)
+		}
+	}
+	if bad > 0 {
+		return 1
+	}
+	return 0
+}
 
 func outDir() string {
 	if d := os.Getenv("GOVC_OUT"); d != "" {
